@@ -103,6 +103,8 @@ class FuncInfo:
 
 
 _func_cache: Dict[Any, FuncInfo] = {}
+SLICERS: Dict[str, Any] = {}      # "@name" -> (FuncInfo of the enclosing function) -> FuncInfo of the slice
+_slice_cache: Dict[Any, FuncInfo] = {}
 
 
 def _unwrap(f: Any) -> Any:
@@ -159,6 +161,16 @@ def lookup(qual: str) -> FuncInfo:
     fi = funcinfo_of(obj, owner)
     fi.owner = owner
     for nested in parts[1:]:
+        if nested.startswith("@"):
+            # a mechanical slice of the function (registered by a contract module): same AST nodes, a stated part dropped
+            sname, _, sparam = nested.partition("=")
+            if sname not in SLICERS:
+                raise LoaderError(f"unknown slice {nested}")
+            key = (fi.qualname, nested, id(fi.node))
+            if key not in _slice_cache:
+                _slice_cache[key] = SLICERS[sname](fi, sparam) if sparam else SLICERS[sname](fi)
+            fi = _slice_cache[key]
+            continue
         found = None
         for n in ast.walk(fi.node):
             if isinstance(n, ast.FunctionDef) and n.name == nested and n is not fi.node:
